@@ -49,3 +49,18 @@ package tglib
 //@ ensures result: vc.Imp(ue != nil && payload != nil, msg != nil || err != nil)
 //@ assigns &ue.DLCount
 //@ assigns global free5gclib/nas/security/snow3g.lfsr free5gclib/nas/security/snow3g.fsm
+
+// ---- C16: the UE advertises exactly the algorithms it will use ----
+// UE security capability IE (TS 24.501 9.11.3.54, IEI 2E in REGISTRATION REQUEST): octet 3 bits 8..5 =
+// 5G-EA0, 128-5G-EA1, 128-5G-EA2, 128-5G-EA3; octet 4 bits 8..5 = 5G-IA0, 128-5G-IA1, 128-5G-IA2, 128-5G-IA3.
+//@ func (*RanUeContext).GetUESecurityCapability
+//@ prop C16
+//@ requires algs: ue.CipheringAlg <= 3 && ue.IntegrityAlg <= 3
+//@ ensures ie: UESecurityCapability != nil && UESecurityCapability.Iei == 0x2E && UESecurityCapability.Len == 2 && len(UESecurityCapability.Buffer) == 2
+//@ ensures ea: UESecurityCapability.Buffer[0] == 0x80>>ue.CipheringAlg
+//@ ensures ia: UESecurityCapability.Buffer[1] == 0x80>>ue.IntegrityAlg
+
+//@ func NewRanUeContext
+//@ prop C16
+//@ ensures fields: result != nil && result.Supi == supi && result.RanUeNgapId == ranUeNgapId && result.CipheringAlg == cipheringAlg && result.IntegrityAlg == integrityAlg
+//@ ensures fresh: result.ULCount.Get() == 0 && result.DLCount.Get() == 0 && result.AmfUeNgapId == 0 && len(result.Kamf) == 0
